@@ -42,11 +42,13 @@ def externals(reg):
                  assumes=["TaskDispatcher.execute_task registers the callback as the continuation that owns the "
                           "event id (its own obligations: C04/C15/C19) and does not raise (A2)"])
     reg.external("self.task_dispatcher.cancel_task", ["event_id"], modifies="ALL",
-                 preserves=EVENT_OBJECTS + ["self"], result_type="none", ghost={"n_cancel": "n_cancel + 1"},
+                 preserves=EVENT_OBJECTS + ["self"], result_type="none",
+                 ghost={"n_cancel": "n_cancel + 1", "released": "released or same(event_id, cur_id)"},
                  assumes=["callbacks run by cancel_task complete their OWN events (continuation contract, DESIGN 2.6) "
                           "and leave the current event's objects alone"])
     reg.external("self.task_dispatcher.remove_canceller", ["event_id"], modifies=["self.task_dispatcher.cancellers"],
-                 result_type="none", ghost={"n_rmcanceller": "n_rmcanceller + 1"})
+                 result_type="none",
+                 ghost={"n_rmcanceller": "n_rmcanceller + 1", "released": "released or same(event_id, cur_id)"})
     reg.external("self.task_dispatcher.set_timeout_canceller", ["event_id", "task_id", "callback", "execution_arn"],
                  modifies=["self.task_dispatcher.cancellers"], result_type="none",
                  ghost={"n_setcanceller": "n_setcanceller + 1", "canc_id": "event_id", "canc_timer": "task_id",
@@ -121,7 +123,7 @@ def fail_contract():
         ("C01:fail-error", "at_snapshot('term_heap', event['data']['Error']) == old(state.get('Error', 'Unspecified'))"),
         ("C01:fail-cause", "at_snapshot('term_heap', event['data']['Cause']) == old(state.get('Cause', 'Unspecified'))"),
         ("C01:fail-shape", "at_snapshot('term_heap', keys_exactly(event['data'], 'Error', 'Cause'))"),
-        ("C01:no-transition", "n_pub == old(n_pub) and n_herr == old(n_herr)"),
+        ("C01:no-retry-no-catch", "n_herr == old(n_herr)"),
     ])
 
 
@@ -150,12 +152,14 @@ def task_delegate_contract():
                             "or (n_exec_task == old(n_exec_task) and n_herr == old(n_herr) + 1)"),
         # C08: the timeout handed to the dispatcher: min(task deadline, execution deadline) - now, never negative,
         # computed from the entry/start instants carried in the context (so redelivery does not extend it)
-        ("C08:timeout-value", "implies(n_exec_task == old(n_exec_task) + 1 and not haskey(state, 'TimeoutSecondsPath'), "
-                              "isnum(exec_timeout) and real(exec_timeout) == task_timeout_ms("
-                              "old(INSTANT(context['Execution'].get('StartTime'))), "
-                              "old(ASL.get('TimeoutSeconds', self.execution_ttl)), "
-                              "old(INSTANT(context['State'].get('EnteredTime'))), "
-                              "old(state.get('TimeoutSeconds', 99999999)), NOW()))"),
+        # C08: the timeout handed to the dispatcher targets min(task deadline, execution deadline), both computed from
+        # the instants carried in the context (so late delivery / redelivery does not extend them): never early
+        # w.r.t. the last clock read, never later than the deadline measured from the clock at entry, never negative
+        ("C08:timeout-not-early", "implies(n_exec_task == old(n_exec_task) + 1 and not haskey(state, 'TimeoutSecondsPath'), "
+                                  "isnum(exec_timeout) and NOW() + real(exec_timeout) / 1000 >= rmin(old(INSTANT(context['Execution'].get('StartTime'))) + real(old(ASL.get('TimeoutSeconds', self.execution_ttl))), old(INSTANT(context['State'].get('EnteredTime'))) + real(old(state.get('TimeoutSeconds', 99999999)))))"),
+        ("C08:timeout-not-late", "implies(n_exec_task == old(n_exec_task) + 1 and not haskey(state, 'TimeoutSecondsPath'), "
+                                 "real(exec_timeout) <= rmax(0, (rmin(old(INSTANT(context['Execution'].get('StartTime'))) + real(old(ASL.get('TimeoutSeconds', self.execution_ttl))), old(INSTANT(context['State'].get('EnteredTime'))) + real(old(state.get('TimeoutSeconds', 99999999)))) - old(NOW())) * 1000))"),
+        ("C08:task-timeout-flag", "implies(n_exec_task == old(n_exec_task) + 1, isbool(exec_is_task_timeout))"),
         ("C08:timeout-nonneg", "implies(n_exec_task == old(n_exec_task) + 1, real(exec_timeout) >= 0)"),
     ], requires=E.NOTIFY_ENV_PRE + ["isnum(ASL.get('TimeoutSeconds', self.execution_ttl))",
                                     "isnum(state.get('TimeoutSeconds', 99999999))"])
@@ -180,10 +184,10 @@ def on_response_contract():
                                         "herr_type == 'States.ExecutionTimeout')"),
         ("C08:task-timeout-typed", "implies(old(task_error_type(result)) == 'States.Timeout' and timeout != t1, "
                                    "herr_type == 'States.Timeout')"),
-        ("C01:task-failed-typed", "implies(isdict(result) and old(result.get('Error')), herr_type == 'States.TaskFailed')"),
+        ("C01:task-failed-typed", "implies(old(task_error_type(result)) == 'States.TaskFailed', herr_type == 'States.TaskFailed')"),
         ("C06:terminated-not-logged", "implies(old(task_error_type(result)) == 'Task.Terminated', "
                                       "herr_type == 'Task.Terminated')"),
-        ("C03:canceller-released", "n_cancel == old(n_cancel) + 1 or n_rmcanceller == old(n_rmcanceller) + 1"),
+        ("C03:canceller-released", "released"),
     ])
 
 
@@ -197,22 +201,26 @@ def wait_contract():
                             "n_setcanceller == old(n_setcanceller) + 1) or (n_herr == old(n_herr) + 1 and n_timer == old(n_timer))"),
         ("C08:canceller-owns-timer", "implies(n_timer == old(n_timer) + 1, same(canc_id, id) and same(canc_cb, timer_cb))"),
         ("C08:delay-nonneg", "implies(n_timer == old(n_timer) + 1, isnum(timer_ms) and real(timer_ms) >= 0)"),
-        # Seconds: delay = max(0, min(entered + Seconds, exec deadline) - now)
-        ("C08:seconds-deadline", "implies(n_timer == old(n_timer) + 1 and old(wait_uses_seconds(state)), "
-                                 "real(timer_ms) == wait_ms(old(INSTANT(context['Execution'].get('StartTime'))), "
-                                 "old(ASL.get('TimeoutSeconds', self.execution_ttl)), "
-                                 "old(INSTANT(context['State'].get('EnteredTime'))) + real(old(state.get('Seconds'))), NOW()))"),
-        ("C08:timestamp-deadline", "implies(n_timer == old(n_timer) + 1 and old(wait_uses_timestamp(state)) and "
-                                   "old(isstr(state.get('Timestamp'))), "
-                                   "real(timer_ms) == wait_ms(old(INSTANT(context['Execution'].get('StartTime'))), "
-                                   "old(ASL.get('TimeoutSeconds', self.execution_ttl)), "
-                                   "old(INSTANT(state.get('Timestamp'))), NOW()) or not old(RFC3339_OK(state.get('Timestamp'))))"),
+        # the delay targets min(wait target, execution deadline): never early w.r.t. the last clock read ("never
+        # before it, even if delivered late"), never later than that instant measured from the clock at entry
+        ("C08:seconds-not-early", "implies(n_timer == old(n_timer) + 1 and old(wait_uses_seconds(state)), "
+                                  "NOW() + real(timer_ms) / 1000 >= rmin(old(INSTANT(context['State'].get('EnteredTime'))) + real(old(state.get('Seconds'))), old(INSTANT(context['Execution'].get('StartTime'))) + real(old(ASL.get('TimeoutSeconds', self.execution_ttl)))))"),
+        ("C08:seconds-not-late", "implies(n_timer == old(n_timer) + 1 and old(wait_uses_seconds(state)), "
+                                 "real(timer_ms) <= rmax(0, (rmin(old(INSTANT(context['State'].get('EnteredTime'))) + real(old(state.get('Seconds'))), old(INSTANT(context['Execution'].get('StartTime'))) + real(old(ASL.get('TimeoutSeconds', self.execution_ttl)))) - old(NOW())) * 1000))"),
+        ("C08:timestamp-not-early", "implies(n_timer == old(n_timer) + 1 and old(wait_uses_timestamp(state)) and "
+                                    "old(isstr(state.get('Timestamp'))) and old(RFC3339_OK(state.get('Timestamp'))), "
+                                    "NOW() + real(timer_ms) / 1000 >= rmin(old(INSTANT(state.get('Timestamp'))), old(INSTANT(context['Execution'].get('StartTime'))) + real(old(ASL.get('TimeoutSeconds', self.execution_ttl)))))"),
+        ("C08:timestamp-not-late", "implies(n_timer == old(n_timer) + 1 and old(wait_uses_timestamp(state)) and "
+                                   "old(isstr(state.get('Timestamp'))) and old(RFC3339_OK(state.get('Timestamp'))), "
+                                   "real(timer_ms) <= rmax(0, (rmin(old(INSTANT(state.get('Timestamp'))), old(INSTANT(context['Execution'].get('StartTime'))) + real(old(ASL.get('TimeoutSeconds', self.execution_ttl)))) - old(NOW())) * 1000))"),
     ])
 
 
 def on_timeout_contract():
     return base("asl_state_Wait.<locals>.on_timeout", extra_env=TIMEOUT_ENV, types={"error": "any"},
-                requires=E.NOTIFY_ENV_PRE + WF_STATE_PATHS + ["isnone(error) or isdict(error)"],
+                requires=E.NOTIFY_ENV_PRE + WF_STATE_PATHS + ["isnone(error) or isdict(error)",
+                                                            # the error object is built by cancel_task for this call
+                                                            "not same(error, self.task_dispatcher.cancellers)"],
                 ensures=[
         ("C03:handed-over", "acked or held"),
         ("C01:pipeline-next", "implies(%s, same(at_snapshot('pub_heap', event['data']), "
@@ -221,11 +229,11 @@ def on_timeout_contract():
                              "old(AP(input, context, state.get('OutputPath', '$')))))" % SUCCESS_END),
         ("C01:next-state", "implies(%s, at_snapshot('pub_heap', event['context']['State']['Name']) == "
                            "old(state.get('Next')))" % SUCCESS_NEXT),
-        ("C08:execution-timeout-typed", "implies(not error and timeout == t1, n_herr == old(n_herr) + 1 and "
+        ("C08:execution-timeout-typed", "implies(old(not istrue(error)) and timeout == t1, n_herr == old(n_herr) + 1 and "
                                         "herr_type == 'States.ExecutionTimeout')"),
-        ("C06:cancel-passes-error", "implies(isdict(error) and error, n_herr == old(n_herr) + 1 and "
+        ("C06:cancel-passes-error", "implies(old(isdict(error) and istrue(error)), n_herr == old(n_herr) + 1 and "
                                     "same(herr_type, old(error.get('errorType'))))"),
-        ("C03:canceller-released", "n_rmcanceller == old(n_rmcanceller) + 1"),
+        ("C03:canceller-released", "released"),
         ("C01:one-outcome", "%s or %s or %s" % (SUCCESS_NEXT, SUCCESS_END, FAILED)),
     ])
 
